@@ -49,12 +49,17 @@ CLAIMED = {
  "C13": dict(
    text="Theorems C13_unpack_tuple/_list: for every flat target list with at most one starred name, every source length Python "
         "accepts and every value type, the accessors the converter emits (t[i], list(t[s:s-n+1 or None]), t[i-n] over tuple(value)) "
-        "select exactly what Python's unpacking binds (reference index/slice semantics in Coq); C13_two_stars_rejected; "
+        "select exactly what Python's unpacking binds (reference index/slice semantics in Coq); C13_unpack_nested: the same for EVERY "
+        "nested pattern of any depth (tuple/list patterns inside each other, one starred target per level, starred sub-patterns): the "
+        "stores the converter emits - temporaries __ol_assign_<position> := tuple(accessor), names receiving accessors - run IN ORDER "
+        "bind exactly what Python's nested unpacking binds, in the same order, and the temporaries of different levels never collide "
+        "(induction over the pattern; reference semantics and store evaluator validated against CPython's own unpacking on every run); "
+        "C13_two_stars_rejected; "
         "C13_op_table: the operator table regenerated from the code equals the data model's in-place method table; "
-        "C13_aug_name_rebinds: both branches of the emitted conditional rebind the name. Nested patterns, other target kinds and "
+        "C13_aug_name_rebinds: both branches of the emitted conditional rebind the name. Other target kinds inside patterns and other "
         "placements are decided by AST correspondence of the whole-converter model plus differential execution (support).",
    note=TRUST + "Unpack.v reference semantics of indexing/slicing/unpacking is hand-written from the language reference and validated against CPython by differential execution.",
-   technique="Coq proof (induction over the target list, lia arithmetic on negative indices/slices) over the converter model + generated operator table + AST correspondence + differential execution",
+   technique="Coq proof (induction over the target list and over nested patterns, lia arithmetic on negative indices/slices, position-derived names) over the converter model + generated operator table + AST correspondence + differential execution",
    ref="5/C13"),
  "C15": dict(
    text="Theorems over the unparser model and the precedence table regenerated from the code (Compat.v): "
